@@ -815,6 +815,12 @@ def run(ctx):
                          % (p, show(n), ''.join(sorted(t))), note=not props)
             elif E in t:
                 fails = propagate(f, fld, p, [f], 0, 'store')
+                if fails and kind == 'release':
+                    ok_exc, why_exc = _chain_member_exception(m, ts, handles, f, fld, p)
+                    if ok_exc:
+                        ctx.exception('RF3-H1', '%s:%s.%s' % (f, fld[0], fld[1]), why_exc)
+                        ctx.ob(props, 'RF3-H1', f, site, 'exception: ' + why_exc)
+                        continue
                 if fails:
                     extra = ['C20'] if any('CONmtReset' in c for ch in fails for c in ch) else []
                     ps = props_of(fld, extra)
@@ -861,6 +867,61 @@ def run(ctx):
     _reset_releases_all(ctx, m, ts, handles, props_of)
     ctx.table('C20', 'RF3.release_all', dict((k, sorted('%s.%s' % f for f in fl)) for k, fl in release_all(ts).items()))
     return ts
+
+
+# handles that are armed only for members of a linked chain: (handle field) -> chain head field
+CHAIN_HANDLES = {('CO_HBCONS', 'Tmr'): ('CO_NMT', 'HbCons')}
+
+
+def _chain_member_exception(m, ts, handles, f, fld, p):
+    """An entry that is not a member of the chain has no running action, so resetting its handle without a
+    delete is harmless - accepted only if (1) every site that arms this handle works on a chain member
+    (cursor that walks the chain from its head) or is the action's own callback, (2) the function looks the
+    entry up in the chain by identity and deletes the action on the path where it is found."""
+    head = CHAIN_HANDLES.get(fld)
+    if head is None:
+        return (False, '')
+    from rules.rf5_null import Analyzer
+    an = Analyzer(ts.ctx)
+    # (1) arming sites
+    for (fname, n) in handles.fields[fld]['creates']:
+        if fld in handles.cb_oneshot.get(fname, set()):
+            continue
+        l = strip(n.kids[0])
+        root = l
+        while root is not None and root.k in ('mem', 'idx'):
+            root = strip(root.kids[0])
+        nid = m.node_of(fname, n)
+        if root is None or root.k != 'ref' or root.refk != 'VarDecl':
+            return (False, 'arming site in %s is not a chain cursor' % fname)
+        org = an.origins(fname, nid, root.ref)
+        if not org or not org <= set([head]):
+            return (False, 'arming site in %s works on %s, not only on members of the chain' % (fname, sorted(map(str, org))))
+    # (2) identity search + delete on the found path in f
+    fn = m.funcs[f]
+    g = m.cfg(f)
+    pids = dict((prm[3], prm[0]) for prm in fn.params)
+    owner = p.split('->')[0]
+    search = False
+    for node in g.nodes:
+        if node.kind != 'br':
+            continue
+        x = strip(node.x)
+        if x.k == 'bin' and x.op in ('==', '!='):
+            a, b = strip(x.kids[0]), strip(x.kids[1])
+            for (u, v) in ((a, b), (b, a)):
+                if u.k == 'ref' and u.refk == 'VarDecl' and v.k == 'ref' and v.name == owner:
+                    org = an.origins(f, node.id, u.ref)
+                    if org and org <= set([head]):
+                        search = True
+    if not search:
+        return (False, 'no identity search of the chain in %s' % f)
+    res = ts.analyse(f)
+    if not any(d[1] == p for d in res.deletes):
+        return (False, 'no delete of %s in %s' % (p, f))
+    return (True, 'an entry that is not a member of the %s.%s chain has no running action: every arming site works on a '
+                  'chain member (cursor from the chain head) or is the action\'s own callback, and %s looks the entry up '
+                  'by identity and deletes its action on the path where it is linked' % (head[0], head[1], f))
 
 
 def _releases(ts, c, fld):
@@ -1287,8 +1348,16 @@ def _cleared_after(m, f, res, node, p, inv):
             between = flow.reach_from(g, d) & flow.reach_from(g, node.id, forward_dir=False)
             if not (between & fals):
                 return (True, 'flag cleared at line %d (dominates the release)' % g.nodes[d].line)
-    seen = flow.reach_from(g, node.id, avoid=est)
+    # paths on which the delete is known to have failed (result tested) did not release anything
+    stop = set(est)
+    for nid, st in res.IN.items():
+        if st is None:
+            continue
+        t = st.get(('P', p))
+        if t is not None and F_ in t and not (t & frozenset([R, D, DE])):
+            stop.add(nid)
+    seen = flow.reach_from(g, node.id, avoid=stop)
     if g.exit.id not in seen:
-        return (True, 'flag cleared on every path after the release')
+        return (True, 'flag cleared on every path after the release (failed deletes excepted)')
     # the handle's own callback is the other legitimate releaser and is covered by obligation (i)
     return (False, 'exit reachable from line %d without clearing the flag' % node.line)
